@@ -411,3 +411,35 @@ def r7(ctx, R):
                 ok = len(same) == 1 and cfg.dominates(n, same[0]) and cfg.guards[id(cfg.stmt_of[same[0]])] == cfg.guards[id(cfg.stmt_of[n])]
                 R.check(ok, f'{cn}.{name} :: {recv}.update_nodes() is followed by {recv}.compute_residual() under the same conditions, once per sweep', w, 'same loop nest, same guards, after the sweep', f'{len(same)} residual computation(s) in the same loop nest' + ('' if not same else '; guards differ' if cfg.guards[id(cfg.stmt_of[same[0]])] != cfg.guards[id(cfg.stmt_of[n])] else ''))
     R.exc('controller_ParaDiag_nonMPI.it_ParaDiag :: all-at-once residual', f'{PARADIAG}:controller_ParaDiag_nonMPI.it_ParaDiag', 'ParaDiag computes the all-at-once residual BEFORE the local solves by construction (increment formulation, C15.R3); IT_CHECK recomputes it before deciding (C03.R3)')
+
+
+@rule('C03', 'C03.R8', 'what post_iteration reports is the residual that decides: in it_check the residual of the step is recomputed (after the forward receive) BEFORE the post_iteration callbacks are issued', floor=2)
+def r8(ctx, R):
+    repo = ctx.repo
+    R.exc('controller_ParaDiag_nonMPI.it_check :: no residual inside it_check', f'{PARADIAG}:controller_ParaDiag_nonMPI.it_check', 'ParaDiag decides on the all-at-once residual computed at the start of the previous it_ParaDiag (increment formulation); there is nothing to recompute in it_check')
+    for rel, cn in ((NONMPI, 'controller_nonMPI'), (MPI, 'controller_MPI')):
+        fn = repo.func(rel, f'{cn}.it_check')
+        w = f'{rel}:{cn}.it_check'
+        R.fn(w)
+
+        def top_index(pred):
+            out = []
+            for i, st in enumerate(fn.body):
+                if any(isinstance(c, ast.Call) and pred(c) for c in ast.walk(st)):
+                    out.append(i)
+            return out
+
+        res = top_index(lambda c: isinstance(c.func, ast.Attribute) and c.func.attr in ('compute_residual', 'compute_all_at_once_residual'))
+        rcv = top_index(lambda c: isinstance(c.func, ast.Attribute) and c.func.attr == 'recv_full')
+        post = top_index(lambda c: isinstance(c.func, ast.Attribute) and c.func.attr == 'post_iteration')
+        if not res or not post:
+            raise AnalysisError(f'{w}: residual computation or post_iteration emission not found')
+        cfgf = FuncCFG(fn)
+        same_stmt_ok = True
+        if min(post) == max(res):
+            # both inside one top-level statement (one loop over the steps / the single MPI step): decide by dominance inside it
+            rn = [n for n in cfgf.stmt_of for c in cfgf.calls_at(n) if isinstance(c.func, ast.Attribute) and c.func.attr in ('compute_residual', 'compute_all_at_once_residual')]
+            pn = [n for n in cfgf.stmt_of for c in cfgf.calls_at(n) if isinstance(c.func, ast.Attribute) and c.func.attr == 'post_iteration']
+            same_stmt_ok = all(any(cfgf.dominates(r_, p_) for r_ in rn) for p_ in pn)
+        ok = (max(res) < min(post) or (max(res) == min(post) and same_stmt_ok)) and (not rcv or max(rcv) <= max(res))
+        R.check(ok, f'{cn}.it_check :: receive -> residual -> post_iteration callbacks', w, 'the residual statement precedes (dominates) every post_iteration emission', {'residual at statement': res, 'receive at': rcv, 'post_iteration at': post})
